@@ -369,6 +369,48 @@ def work_extremes(job):
             if o[0] != 'ok' or isinstance(o[1], bool) or not isinstance(o[1], (int, float)) or o[1] != float(e):
                 acc.violation(dict(kind='round', fn=fn + '1', verdict='wrong-value', x=x, digits=None, extreme=True, observed=jsonable(o[:2]),
                                    expected=float(e)), f'={fn}({x!r}) = {o[:2]!r}, expected {float(e)!r}')
+    # MOD and the CEILING / FLOOR family when the quotient needs far more than the 28 digits of the default decimal
+    # context, and at the overflow edge: the laws of the statement, exactly (Fractions)
+    # (whole floats >= 2^53 that are not exact powers of ten are left out: the statement fixes the decimal reading of
+    # such a number for ROUND only, and its binary value gives another, equally lawful remainder)
+    big = [(5.5, 3e-30), (5.5, -3e-30), (-5.5, 3e-30), (-5.5, -3e-30), (123456789.5, 1e-25), (0.1, 1e-40), (1e22, 0.3), (-1e22, 0.3),
+           (7.5, 1e-300), (-7.5, 1e-300), (2.5, 7e-31), (1e15 + 0.5, 1e-20)]
+    for n, d in big:
+        o = ev.run('=MOD(A1,B1)', {'A1': n, 'B1': d})
+        acc.add('evaluations')
+        acc.add('states')
+        acc.add('distinct_nontrivial')
+        qn, qd = F(n), F(d)
+        exact = qn - qd * math.floor(qn / qd)
+        case = dict(kind='mod', fn='MOD', n=n, d=d, extreme=True)
+        if o[0] != 'ok':
+            acc.violation(dict(case, verdict='raised', exc=o[1]), f'=MOD({n!r},{d!r}) raised {o[1]}')
+        elif isinstance(o[1], str):
+            if o[1] != '#NUM!':
+                acc.violation(dict(case, verdict='wrong-value', observed=o[1], expected=float(exact)), f'=MOD({n!r},{d!r}) = {o[1]!r}')
+        elif not (o[1] == float(exact) or abs(F(o[1]) - exact) <= abs(qd) * Fraction(1, 10 ** 9)) or \
+                (o[1] != 0 and (o[1] > 0) != (d > 0)) or not abs(o[1]) < abs(d):
+            acc.violation(dict(case, verdict='wrong-value', observed=jsonable(o[1]), expected=float(exact)),
+                          f'=MOD({n!r},{d!r}) = {o[1]!r}; n - d*INT(n/d) = {float(exact)!r} (sign of d, |r| < |d|)')
+        for fn in ('CEILING.MATH', 'FLOOR.MATH', 'CEILING.PRECISE', 'FLOOR.PRECISE'):
+            o = ev.run(f'={fn}(A1,B1)', {'A1': n, 'B1': d})
+            acc.add('evaluations')
+            a = abs(qd)
+            want = (math.ceil(qn / a) if fn.startswith('CEIL') else math.floor(qn / a)) * a
+            case = dict(kind='bracket', fn=fn, x=n, sig=d, extreme=True)
+            if o[0] != 'ok':
+                acc.violation(dict(case, verdict='raised', exc=o[1]), f'={fn}({n!r},{d!r}) raised {o[1]}')
+            elif isinstance(o[1], str) or not same(o[1], want):
+                acc.violation(dict(case, verdict='wrong-multiple', observed=jsonable(o[1]), expected=float(want)),
+                              f'={fn}({n!r},{d!r}) = {o[1]!r}, the bracketing multiple is {float(want)!r}')
+    for f, env in (('=CEILING(A1,B1)', {'A1': 1.7e308, 'B1': 1e308}), ('=FLOOR(A1,B1)', {'A1': -1.7e308, 'B1': 1e308}),
+                   ('=CEILING.MATH(A1,B1)', {'A1': 1.7e308, 'B1': 1e308}), ('=FLOOR.MATH(A1,B1)', {'A1': -1.7e308, 'B1': 1e308})):
+        o = ev.run(f, env)
+        acc.add('evaluations')
+        if o[:2] != ('ok', '#NUM!'):
+            acc.violation(dict(kind='bracket', fn=f.split('(')[0][1:], x=env['A1'], sig=env['B1'], extreme=True, verdict='wrong-multiple',
+                               observed=jsonable(o[:2]), expected='#NUM!'),
+                          f'{f} with {env} = {o[:2]!r}; the multiple is not representable, expected #NUM!')
     acc.counts['transitions'] = acc.counts.get('evaluations', 0)
     return acc.result()
 
